@@ -369,6 +369,8 @@ def slice_bytes(E, base, sl, st, sink):
         return _clamp(zb, n)
     lo = bound(sl.start, False)
     hi = bound(sl.stop, True)
+    if sl.stop is None and z3.is_int_value(lo) and lo.as_long() == 0:
+        return base if isinstance(base, SBytes) else mk_bytes(zs, kind)      # s[0:] is s
     if sl.stop is None or E.implied(st, hi >= lo):
         ln = hi - lo
     else:
